@@ -107,6 +107,17 @@ CHECKS = {
              "12-symbol alphabet; documents with hard breaks, tags and code spans are checked through reformat_text in list/quote contexts.",
         note="Trusted: the reference wrapper and detector in checks/c11.py (both < 30 lines).",
         ref="DESIGN.md §2 C11"),
+    "C15": dict(
+        level="exploration",
+        technique="complete enumeration of the option product x entry points, in-process and as real subprocesses; byte comparison with the text API",
+        text="All 384 option sets (4 widths x plaintext x semantic x cleanups x smartquotes x ellipses x 3 list-spacing modes) are run through 13 "
+             "entry points (file API to stdout / -o / in place with and without backup; CLI on a file to stdout / -o / -i / -i --nobackup; CLI on "
+             "stdin to stdout / -o; CLI on three files to stdout / in place; CLI on a directory) in-process, and through the real "
+             "`python -m flowmark.cli` subprocess for a pairwise-covering set (quick) or all 384 sets (thorough); every result must equal "
+             "reformat_text(text, **options) byte for byte, per file in multi-file runs, with backups present/absent as requested and inputs "
+             "untouched. --auto alone and with every other flag equals its expansion and the preset; 10 usage errors exit non-zero with the tree unchanged.",
+        note="Trusted: reformat_text as the reference. The document is proven at start-up to change under every single option.",
+        ref="DESIGN.md §2 C15"),
     "C05": dict(
         level="model_checking",
         technique="explicit-state model of the greedy filler, exhaustive trace enumeration + replay of every trace against the implementation",
